@@ -318,6 +318,13 @@ def _process_properties(  # noqa: PLR0912, PLR0911
         if isinstance(prop_or_error, PropertyError):
             return prop_or_error
 
+    # A member of allOf may require a property which was declared (as optional) by another, referenced member.
+    # The referenced model keeps its own property object, so evolve a copy instead of mutating it.
+    for key in required_set:
+        inherited_prop = properties.get(key)
+        if inherited_prop is not None and not inherited_prop.required:
+            properties[key] = evolve(inherited_prop, required=True)
+
     required_properties = []
     optional_properties = []
     for prop in properties.values():
